@@ -470,3 +470,40 @@ func vxH12Twice() {
 	vxAssert(r2.Msize <= m2 && r2.Msize <= 8192 && r2.Msize >= IOHDRSZ, "second-msize-within-both-limits")
 	vxReach("done")
 }
+
+// H12.sameseg: the frame-size limit is the negotiated one from the Rversion on, also for a frame that arrives in the
+// same transport read as the Tversion that lowered msize: a frame longer than the new msize (but well inside the old)
+// is neither executed nor answered, and the connection is dropped.
+func vxH12SameSeg(cut bool) {
+	kit := vxNewKit(false, false, 8192, true)
+	nc := vxNewNetConn()
+	kit.srv.NewConn(nc)
+	m := vxU32("msize")
+	vxAssume(vxAll(m >= IOHDRSZ, m <= 99))
+	ver := refEncode(Tversion, NOTAG, []refItem{refU32(m), refS("9P2000.u")}, true)
+	uname := make([]byte, 77)
+	for i := range uname {
+		uname[i] = 'u'
+	}
+	att := refEncode(Tattach, 1, []refItem{refU32(0), refU32(NOFID), refS(string(uname)), refS(""), refU32(0)}, true) // 100 bytes
+	vxAssert(len(att) == 100, "harness-frame-size")
+	if cut {
+		nc.in <- ver
+		vxQuiesce()
+		nc.in <- att
+	} else {
+		nc.in <- append(append([]byte{}, ver...), att...)
+	}
+	vxQuiesce()
+	vxAssert(kit.ops.ncalls("attach") == 0, "frame-longer-than-the-negotiated-msize-not-executed")
+	fs, _ := vxFrames(nc.wire)
+	for _, f := range fs {
+		vxAssert(f.tag == NOTAG, "frame-longer-than-the-negotiated-msize-not-answered")
+	}
+	alive := false
+	for range kit.srv.conns {
+		alive = true
+	}
+	vxAssert(!alive, "frame-longer-than-the-negotiated-msize-drops-the-connection")
+	vxReach("done")
+}
